@@ -57,7 +57,11 @@ func genC16(r *Rng, k int) *RunSpec {
 		DocSpec{dupCol, mustJSON(J{"@context": asCtx, "type": "OrderedCollection", "id": dupCol, "orderedItems": []string{st.Dave, st.Erin, st.Dave, objs[0], st.Dave}})},
 	)
 	if r.Bool() { // otherwise the liked collection has no items member yet
-		a.Docs = append(a.Docs, DocSpec{st.Alice.Liked, mustJSON(J{"@context": asCtx, "type": "Collection", "id": st.Alice.Liked, "items": []string{"https://" + hostR + "/n/liked-before"}})})
+		before := []string{"https://" + hostR + "/n/liked-before"}
+		if r.Bool() {
+			before = append(before, objs[0], st.RNote) // liking these again must still put them at the front
+		}
+		a.Docs = append(a.Docs, DocSpec{st.Alice.Liked, mustJSON(J{"@context": asCtx, "type": "Collection", "id": st.Alice.Liked, "items": before})})
 	}
 	if r.Intn(3) == 0 { // target collections without an items member
 		a.Docs = append(a.Docs, DocSpec{st.Col1, mustJSON(J{"@context": asCtx, "type": "Collection", "id": st.Col1})})
